@@ -16,9 +16,11 @@ package acr
 //@   assigns elems(currentStates)
 //@   ensures [indicator_of_the_maxima] forall k int :: {currentStates[k]} 0 <= k && k < len(neighborStates) ==> (currentStates[k] == 1.0 || currentStates[k] == 0.0) && (currentStates[k] == 1.0 <==> (forall j int :: {old(neighborStates[j])} 0 <= j && j < len(neighborStates) ==> old(neighborStates[j]) <= old(neighborStates[k])))
 //@   loop 1
+//@     complete [all_iterations_no_early_exit]
 //@     invariant [running_max_bounds_scanned_prefix] max >= 0.0 && (forall j int :: {neighborStates[j]} 0 <= j && j <= rangeindex ==> neighborStates[j] <= max)
 //@     invariant [running_max_is_attained_or_zero] max == 0.0 || (exists j int :: {neighborStates[j]} 0 <= j && j <= rangeindex && neighborStates[j] == max)
 //@   loop 2
+//@     complete [all_iterations_no_early_exit]
 //@     assigns elems(currentStates)
 //@     invariant [max_bounds_all] forall j int :: {old(neighborStates[j])} 0 <= j && j < len(neighborStates) ==> old(neighborStates[j]) <= max
 //@     invariant [max_attained_or_zero] max == 0.0 || (exists j int :: {old(neighborStates[j])} 0 <= j && j < len(neighborStates) && old(neighborStates[j]) == max)
@@ -32,9 +34,11 @@ package acr
 //@   ensures [a_tip_costs_no_step] len(old(cur.neigh)) == 1 && err == nil ==> nsteps == 0
 //@   call acr.parsimonyUPPASS [recursion_goes_to_the_children_only] a0 == child && a0 != prev && a1 == cur && a3 == states
 //@   loop 1
+//@     complete [all_iterations_no_early_exit]
 //@     step [parent_side_adds_nothing] child == prev ==> next(nsteps) == nsteps
 //@     step [steps_of_each_child_added_once] child != prev ==> next(nsteps) == nsteps + tempsteps
 //@   loop 5
+//@     complete [all_iterations_no_early_exit]
 //@     step [one_step_per_child_lacking_the_kept_state] next(nsteps) == nsteps + (child != prev && states[child.id][maxState] == 0.0 ? 1 : 0)
 
 // ---------------------------------------------------------------------------
@@ -65,13 +69,16 @@ package acr
 //@   requires cur != nil && 0 <= cur.id && cur.id < len(states) && (prev != nil ==> 0 <= prev.id && prev.id < len(states) && prev.id != cur.id)
 //@   requires rowsok(states, len(stateIndices)) && rowsapart(states)
 //@   loop 1
+//@     complete [every_child_is_treated_no_early_exit]
 //@     invariant [own_states_copied_so_far] len(state) == len(stateIndices) && fresh_arr(state) && (forall k int :: {state[k]} 0 <= k && k < len(state) ==> state[k] == (k <= rangeindex ? old(states[cur.id][k]) : 0.0))
 //@     invariant [tables_untouched] forall k int :: {states[cur.id][k]} {states[prev.id][k]} 0 <= k && k < len(stateIndices) ==> states[cur.id][k] == old(states[cur.id][k]) && states[prev.id][k] == old(states[prev.id][k])
 //@   loop 2
+//@     complete [all_iterations_no_early_exit]
 //@     invariant [parent_states_added_so_far] len(state) == len(stateIndices) && fresh_arr(state) && (forall k int :: {state[k]} 0 <= k && k < len(state) ==> state[k] == old(states[cur.id][k]) + (k <= rangeindex ? old(states[prev.id][k]) : 0.0))
 //@     invariant [no_shared_state_seen_so_far_iff_flag] nullIntersection <==> (forall k int :: {state[k]} 0 <= k && k <= rangeindex ==> state[k] <= 1.0)
 //@     invariant [tables_untouched] forall k int :: {states[cur.id][k]} {states[prev.id][k]} 0 <= k && k < len(stateIndices) ==> states[cur.id][k] == old(states[cur.id][k]) && states[prev.id][k] == old(states[prev.id][k])
 //@   loop 3
+//@     complete [all_iterations_no_early_exit]
 //@     invariant [sums_kept] len(state) == len(stateIndices) && fresh_arr(state) && (forall k int :: {state[k]} 0 <= k && k < len(state) ==> state[k] == old(states[cur.id][k]) + old(states[prev.id][k]))
 //@     invariant [node_keeps_exactly_the_states_shared_with_its_parent] forall k int :: {states[cur.id][k]} 0 <= k && k < len(stateIndices) ==> states[cur.id][k] == (k <= rangeindex ? (old(states[cur.id][k]) + old(states[prev.id][k]) > 1.0 ? 1.0 : 0.0) : old(states[cur.id][k]))
 //@     invariant [parent_untouched] forall k int :: {states[prev.id][k]} 0 <= k && k < len(stateIndices) ==> states[prev.id][k] == old(states[prev.id][k])
@@ -87,16 +94,20 @@ package acr
 //@   requires cur != nil && 0 <= cur.id && cur.id < len(states) && rowsok(states, len(stateIndices)) && rowsapart(states)
 //@   requires forall i int :: {cur.neigh[i]} 0 <= i && i < len(cur.neigh) ==> cur.neigh[i] != nil && 0 <= cur.neigh[i].id && cur.neigh[i].id < len(states) && cur.neigh[i].id != cur.id
 //@   loop 1
+//@     complete [every_child_is_treated_no_early_exit]
 //@     invariant [table_shape] rowsok(states, len(stateIndices)) && rowsapart(states) && cur != nil && 0 <= cur.id && cur.id < len(states)
 //@     invariant [neighbours_have_rows_of_their_own] forall i int :: {cur.neigh[i]} 0 <= i && i < len(cur.neigh) ==> cur.neigh[i] != nil && 0 <= cur.neigh[i].id && cur.neigh[i].id < len(states) && cur.neigh[i].id != cur.id
 //@   loop 2
+//@     complete [all_iterations_no_early_exit]
 //@     invariant [child_states_copied_so_far] len(state) == len(stateIndices) && fresh_arr(state) && (forall k int :: {state[k]} 0 <= k && k < len(state) ==> state[k] == (k <= rangeindex ? lold(states[child.id][k]) : 0.0))
 //@     invariant [tables_untouched] rowsok(states, len(stateIndices)) && rowsapart(states) && (forall k int :: {states[child.id][k]} {states[cur.id][k]} 0 <= k && k < len(stateIndices) ==> states[child.id][k] == lold(states[child.id][k]) && states[cur.id][k] == lold(states[cur.id][k]))
 //@   loop 3
+//@     complete [all_iterations_no_early_exit]
 //@     invariant [node_states_added_so_far] len(state) == len(stateIndices) && fresh_arr(state) && (forall k int :: {state[k]} 0 <= k && k < len(state) ==> state[k] == lold(states[child.id][k]) + (k <= rangeindex ? lold(states[cur.id][k]) : 0.0))
 //@     invariant [no_shared_state_seen_so_far_iff_flag] nullIntersection <==> (forall k int :: {state[k]} 0 <= k && k <= rangeindex ==> state[k] <= 1.0)
 //@     invariant [tables_untouched] rowsok(states, len(stateIndices)) && rowsapart(states) && (forall k int :: {states[child.id][k]} {states[cur.id][k]} 0 <= k && k < len(stateIndices) ==> states[child.id][k] == lold(states[child.id][k]) && states[cur.id][k] == lold(states[cur.id][k]))
 //@   loop 4
+//@     complete [all_iterations_no_early_exit]
 //@     invariant [sums_kept] len(state) == len(stateIndices) && fresh_arr(state) && (forall k int :: {state[k]} 0 <= k && k < len(state) ==> state[k] == lold(state[k]) && state[k] == lold(states[child.id][k]) + lold(states[cur.id][k]))
 //@     invariant [child_keeps_exactly_the_states_shared_with_the_node] forall k int :: {states[child.id][k]} 0 <= k && k < len(stateIndices) ==> states[child.id][k] == (k <= rangeindex ? (lold(states[child.id][k]) + lold(states[cur.id][k]) > 1.0 ? 1.0 : 0.0) : lold(states[child.id][k]))
 //@     invariant [node_untouched] rowsok(states, len(stateIndices)) && rowsapart(states) && (forall k int :: {states[cur.id][k]} 0 <= k && k < len(stateIndices) ==> states[cur.id][k] == lold(states[cur.id][k]))
@@ -114,8 +125,10 @@ package acr
 //@   call (*tree.Node).ClearComments [the_comments_of_the_node_whose_states_were_written_are_cleared] a0 == n
 //@   call (*tree.Node).AddComment [the_text_becomes_a_comment_of_that_node] a0 == n && ghost(ncalls_ClearComments) - atHead(ghost(ncalls_ClearComments)) == 1
 //@   loop 1
+//@     complete [all_iterations_no_early_exit]
 //@     step [per_node_the_buffer_is_emptied_once_and_one_comment_is_set] ghost(ncalls_Reset) == atHead(ghost(ncalls_Reset)) + 1 && ghost(ncalls_AddComment) == atHead(ghost(ncalls_AddComment)) + 1 && ghost(ncalls_String) == atHead(ghost(ncalls_String)) + 1
 //@   loop 2
+//@     complete [all_iterations_no_early_exit]
 //@     step [every_state_with_a_positive_count_is_written_and_counted] next(nb) == nb + (states[n.id][rangeindex + 1] > 0.0 ? 1 : 0) && ghost(ncalls_WriteString) == atHead(ghost(ncalls_WriteString)) + (states[n.id][rangeindex + 1] > 0.0 ? 1 : 0)
 //@     step [a_bar_exactly_before_every_state_but_the_first] ghost(ncalls_WriteRune) == atHead(ghost(ncalls_WriteRune)) + ((states[n.id][rangeindex + 1] > 0.0 && nb > 0) ? 1 : 0)
 
@@ -130,8 +143,10 @@ package acr
 //@   call strings.Join [the_sorted_list_is_joined_with_commas] a1 == "," && ghost(ncalls_Strings) - atHead(ghost(ncalls_Strings)) == 1
 //@   call fmt.Sprintf [the_identifier_stands_in_for_a_missing_name] a0 == "%d"
 //@   loop 1
+//@     complete [all_iterations_no_early_exit]
 //@     step [tips_get_no_entry_inner_nodes_exactly_one] ghost(ncalls_Join) == atHead(ghost(ncalls_Join)) + (len(n.neigh) == 1 ? 0 : 1)
 //@   loop 2
+//@     complete [all_iterations_no_early_exit]
 //@     step [every_state_with_a_positive_count_is_listed_by_its_own_name] next(nb) == nb + (states[n.id][rangeindex + 1] > 0.0 ? 1 : 0) && len(next(st)) == len(st) + (states[n.id][rangeindex + 1] > 0.0 ? 1 : 0) && (states[n.id][rangeindex + 1] > 0.0 ==> next(st)[len(st)] == alphabet[rangeindex + 1])
 
 // ParsimonyAcr (properties C12, C18): the alphabet takes every distinct tip state exactly once and is sorted before the
@@ -154,8 +169,10 @@ package acr
 //@   call acr.assignStatesToTree [the_comments_are_written_from_the_same_table_and_alphabet] a0 == t && a1 == states && a2 == alphabet
 //@   ensures [an_unknown_algorithm_is_an_error] algo != ALGO_DELTRAN && algo != ALGO_ACCTRAN && algo != ALGO_DOWNPASS && algo != ALGO_NONE ==> result2 != nil
 //@   loop 1
+//@     complete [all_iterations_no_early_exit]
 //@     step [a_state_joins_the_alphabet_exactly_when_it_was_not_seen_before] len(next(alphabet)) == len(alphabet) + (atHead(has(seenState, state)) ? 0 : 1) && has(seenState, state) && (!atHead(has(seenState, state)) ==> next(alphabet)[len(alphabet)] == state)
 //@   loop 2
+//@     complete [all_iterations_no_early_exit]
 //@     invariant [tables_have_one_row_per_node] len(states) == len(nodes) && len(upstates) == len(nodes) && arr(states) != arr(upstates)
 //@     step [both_rows_of_node_i_are_as_wide_as_the_alphabet] len(states[rangeindex + 1]) == len(alphabet) && len(upstates[rangeindex + 1]) == len(alphabet)
 
@@ -167,6 +184,7 @@ package acr
 //@   ensures [every_index_points_back_at_its_state] forall s string :: {has(result, s)} {result[s]} has(result, s) ==> 0 <= result[s] && result[s] < len(alphabet) && alphabet[result[s]] == s
 //@   ensures [every_state_of_the_alphabet_has_an_index] forall k int :: {alphabet[k]} 0 <= k && k < len(alphabet) ==> has(result, alphabet[k])
 //@   loop 1
+//@     complete [all_iterations_no_early_exit]
 //@     assigns mapof(indices)
 //@     invariant [fresh_map] indices != nil && fresh(indices)
 //@     invariant [every_index_points_back_at_its_state] forall s string :: {has(indices, s)} {indices[s]} has(indices, s) ==> 0 <= indices[s] && indices[s] <= rangeindex && alphabet[indices[s]] == s
